@@ -62,9 +62,12 @@ func readerOracle(c *Ctx, class string, crc bool, stream []byte, sizes []int) st
 			c.Violate("C08:close-nil-bad-size:"+class, fmt.Sprintf("Close() = nil although %d bytes were read and %d declared", len(data), size), rep)
 		}
 		if size >= 0 && size < 1<<24 {
-			ref, _ := canonDecode(body, size, size+100)
+			ref, consumed := canonDecode(body, size, size+100)
 			if len(ref) != size || !bytes.Equal(ref, data) {
 				c.Violate("C08:close-nil-not-canonical:"+class, "Close() = nil although the bytes read are not the canonical decoding of the stream", rep)
+			} else if consumed > len(body) {
+				// the reference decoder had to invent bits past the end of the stream: the stream is truncated
+				c.Violate("C08:close-nil-truncated:"+class, fmt.Sprintf("Close() = nil although the stream ends before the last code is complete (decoding needs %d body bytes, %d present)", consumed, len(body)), rep)
 			}
 		}
 	}
